@@ -37,7 +37,15 @@ func enumWL(r *spg.WLRecipe, maxLeaves int) (*wlDist, error) {
 		if out.Pw == nil {
 			return fmt.Errorf("Generate failed: %v", out.Err)
 		}
-		k := tokKey(toToks(out.Pw.Tokens()))
+		// an empty separator token is "no separator" for the distribution; the
+		// token layout as such is C05's
+		var ts []oracle.Tok
+		for _, t := range toToks(out.Pw.Tokens()) {
+			if !(t.T == oracle.SepT && t.V == "") {
+				ts = append(ts, t)
+			}
+		}
+		k := tokKey(ts)
 		w, ok := d.P[k]
 		if !ok {
 			w = new(big.Rat)
